@@ -1,13 +1,16 @@
 #!/bin/bash
 # usage: tools/seedrun.sh <seeded-name> <check-id>...   re-run checks against a stored seeded change (scratch worktree, /repo untouched)
+ROOT="$(cd "$(dirname "$0")/.." && pwd)"
 name=$1; shift
 W=/tmp/mut/_seedrun_$$
+mkdir -p /tmp/mut
 git -C /repo worktree add -q --detach $W HEAD || exit 2
-git -C $W apply /verif/seeded/$name/patch.diff || { echo "patch does not apply"; git -C /repo worktree remove --force $W; exit 2; }
-cd /verif
+git -C $W apply "$ROOT/seeded/$name/patch.diff" || { echo "patch does not apply"; git -C /repo worktree remove --force $W; exit 2; }
+cd "$ROOT"
 for id in "$@"; do
   echo "== $name -> $id"
-  VERIF_REPO=$W VERIF_EVIDENCE_DIR=/tmp/seed_evidence timeout 3000 ./check $id --tier ${TIER:-quick} 2>&1 | grep -E "^(VIOLATION|OK|KNOWN)"
+  VERIF_REPO=$W VERIF_EVIDENCE_DIR=/tmp/seed_evidence_$$ timeout 3000 ./check $id --tier ${TIER:-quick} 2>&1 | grep -E "^(VIOLATION|OK|KNOWN)"
 done
 git -C /repo worktree remove --force $W
-python3 tools/gen.py > /dev/null
+rm -rf /tmp/seed_evidence_$$
+VERIF_REPO=/repo python3 tools/gen.py > /dev/null
